@@ -44,10 +44,11 @@ fn documents() -> Vec<Doc> {
     ("import {\n  A,\n  B\n} from Other", "A"),
     ("import { Bar }\n  from Lib", "Bar"),
   ];
-  let bodies: [(&str, &str); 3] = [
+  let bodies: [(&str, &str); 4] = [
     ("expr", "class Main {\n  function f(): int = Foo.bar()\n}\n"),
     ("annot", "class Main {\n  function g(x: Foo): int = 1\n  function f(): int = 2\n}\n"),
     ("both", "class Main {\n  function g(x: Foo): int = Foo.bar()\n}\n"),
+    ("private-toplevels", "private class Helper {\n  function bar(): int = 1\n}\nprivate interface Loc {}\nclass Main : Loc {\n  function f(): int = Helper.bar() + Foo.bar()\n}\n"),
   ];
   let mut docs = vec![];
   // subsets/orders of existing imports: 0..3 imports, all orders of the chosen ones
@@ -271,10 +272,46 @@ fn check_edits(
   None
 }
 
+/// Applying the edits must not introduce diagnostics that were not there before.
+fn check_no_new_diagnostics(w: &World, doc: &Doc, edits: &[(Location, String)], ctx: &str) -> Option<(String, String)> {
+  let new_text = match synt::apply_edits(&doc.text, edits) {
+    Ok(t) => t,
+    Err(e) => return Some((format!("bad-ranges:{ctx}"), format!("edits {edits:?} cannot be applied: {e}"))),
+  };
+  let mut sources: HashMap<ModuleReference, String> = HashMap::new();
+  let mut heap3 = Heap::new();
+  for (m, t) in &w.state.string_sources {
+    sources.insert(mod_ref(&mut heap3, &m.pretty_print(&w.state.heap)), t.clone());
+  }
+  let main3 = mod_ref(&mut heap3, "Main");
+  sources.insert(main3, new_text.clone());
+  let fresh = ServerState::new(heap3, false, sources);
+  let msgs = |st: &ServerState, m: &ModuleReference| -> Vec<String> {
+    let mut v: Vec<String> = vcore::srv::rendered_errors_of(st, m).iter().map(|e| e.split(" | ").nth(1).unwrap_or("").to_string()).collect();
+    v.sort();
+    v
+  };
+  let before = msgs(&w.state, &w.main);
+  let mut rest = before.clone();
+  let mut added = vec![];
+  for m in msgs(&fresh, &main3) {
+    if let Some(i) = rest.iter().position(|x| *x == m) {
+      rest.swap_remove(i);
+    } else {
+      added.push(m);
+    }
+  }
+  if added.is_empty() {
+    None
+  } else {
+    Some((format!("new-diagnostics:{ctx}"), format!("after applying {edits:?} the document has new diagnostics {added:?}: {new_text:?}")))
+  }
+}
+
 fn foo_positions(text: &str) -> Vec<Position> {
   let mut out = vec![];
   for t in synt::tokenize(text) {
-    if t.text == "Foo" {
+    if t.text == "Foo" || t.text == "Helper" || t.text == "Loc" {
       for c in t.col..=t.end_col {
         out.push(Position(t.line, c));
       }
@@ -316,6 +353,13 @@ fn main() {
           }
         }
         for item in completion::auto_complete(&w.state, &w.main, p) {
+          if (item.label == "Helper" || item.label == "Loc") && !item.additional_edits.is_empty() {
+            // a class that the document itself declares needs no import at all
+            completions_checked.fetch_add(1, Ordering::Relaxed);
+            if let Some((sig, msg)) = check_no_new_diagnostics(&w, doc, &item.additional_edits, &format!("completion-of-local-{}", item.label)) {
+              found.push((sig, msg, format!("auto_complete at {}:{} (item {})", p.0, p.1, item.label)));
+            }
+          }
           if item.label == "Foo" && !item.additional_edits.is_empty() {
             completions_checked.fetch_add(1, Ordering::Relaxed);
             // the item does not say which module it imports from: accept either exporter
